@@ -45,42 +45,50 @@ def _helper_of(model, fi, call):
 
 
 def _events(fi, model=None, depth=0):
-    """Codec stage events of a function in source order (inner calls of a
-    nested expression first); calls of same-module helpers are replaced by
-    the helper's own events."""
-    raw = []
-    for n in own_nodes(fi.node):
-        ln = getattr(n, 'lineno', 0)
-        col = getattr(n, 'col_offset', 0)
+    """Codec stage events of a function in evaluation order (statements in
+    source order, the operands of an expression before the operation);
+    calls of same-module helpers are replaced by the helper's own
+    events."""
+    out = []
+
+    def event(n):
         if isinstance(n, ast.Call):
             f = norm(n.func)
             if f in ('json.dumps', 'json.loads', 'compress', 'decompress',
                      'b2a_base64', 'a2b_base64'):
-                raw.append((ln, -col, [f]))
-            elif f.endswith('.translate') and n.args:
-                raw.append((ln, -col, [norm(n.args[0])]))
-            elif f.endswith('.decode') and n.args and \
+                return [f]
+            if f.endswith('.translate') and n.args:
+                return [norm(n.args[0])]
+            if f.endswith('.decode') and n.args and \
                     norm(n.args[0]).lower() in ("'ascii'",):
-                raw.append((ln, -col, ['ascii-decode']))
-            elif f.endswith('.encode') and n.args and \
+                return ['ascii-decode']
+            if f.endswith('.encode') and n.args and \
                     norm(n.args[0]).lower() in ("'ascii'",):
-                raw.append((ln, -col, ['ascii-encode']))
-            elif f.endswith('.find') and n.args and \
+                return ['ascii-encode']
+            if f.endswith('.find') and n.args and \
                     norm(n.args[0]) == "b'='":
-                raw.append((ln, -col, ['strip=']))
-            elif depth < 3:
+                return ['strip=']
+            if depth < 3:
                 h = _helper_of(model, fi, n)
                 if h is not None:
-                    raw.append((ln, -col, _events(h, model, depth + 1)))
+                    return _events(h, model, depth + 1)
         elif isinstance(n, ast.BinOp) and isinstance(n.op, ast.Add) and \
                 "b'='" in norm(n.right):
-            raw.append((ln, -col, ['pad=']))
+            return ['pad=']
         elif isinstance(n, ast.AugAssign) and isinstance(n.op, ast.Add) and \
                 "b'='" in norm(n.value):
-            raw.append((ln, -col, ['pad=']))
-    out = []
-    for _, _, evs in sorted(raw, key=lambda t: (t[0], t[1])):
-        out.extend(evs)
+            return ['pad=']
+        return []
+
+    def visit(n):
+        if isinstance(n, (ast.FunctionDef, ast.AsyncFunctionDef, ast.Lambda,
+                          ast.ClassDef)) and n is not fi.node:
+            return
+        for c in ast.iter_child_nodes(n):
+            visit(c)
+        out.extend(event(n))
+    for st in fi.node.body:
+        visit(st)
     return out
 
 
